@@ -291,10 +291,10 @@ def run(ctx):
     if nrp:
         ctx.notes.append("%d corrupted tables made gtab.Read panic (C02's subject), e.g. %s" % (len(nrp), nrp[0].get("site")))
 
-    ctx.cov["distinct_nontrivial"] = len(cases) * len(hists) + int((ctx.cov.get("mutants") or {}).get("accepted", 0))
+    ctx.cov["distinct_nontrivial"] = len(cases) * len(hists) + int((ctx.cov.get("mutants") or {}).get("live", 0))
     ctx.cov["rule"] = ("one case = (tables, call history); tables: %d built (malformed shapes, catalogue sample, random) x "
                        "%d TLC-generated histories (all 256 pairs over 2 objects x 8 inputs + simulated long ones) + "
-                       "reader-accepted single-word mutants x all input pairs; evaluations = recorded calls validated "
+                       "reader-accepted single-word mutants that still have lookups x all input pairs; evaluations = recorded calls validated "
                        "by TLC" % (len(cases), len(hists)))
     ctx.cov["bounds"] = {"pool": 8, "history_pairs": 256, "long_histories": len(hl.cases), "built_tables": len(cases),
                          "mutant_words_per_table": maxw}
